@@ -373,7 +373,8 @@ class NcRNATblFeature(TblFeature):
         qualifiers["ncRNA_class"] = [transcript.transcript_type.name if transcript.transcript_type else "other"]
 
         super().__init__(
-            transcript.chromosome_location,
+            # must use _location here and not chromosome_location (adjacent exons are merged there)
+            transcript._location,
             start_is_incomplete=False,
             end_is_complete=False,
             is_pseudo=False,
@@ -399,7 +400,8 @@ class MiscRNATblFeature(TblFeature):
             qualifiers["product"] = qualifiers["gene"]
 
         super().__init__(
-            transcript.chromosome_location,
+            # must use _location here and not chromosome_location (adjacent exons are merged there)
+            transcript._location,
             start_is_incomplete=False,
             end_is_complete=False,
             is_pseudo=False,
@@ -427,7 +429,8 @@ class TRNATblFeature(TblFeature):
             qualifiers["product"] = ["tRNA-Xxx"]
 
         super().__init__(
-            transcript.chromosome_location,
+            # must use _location here and not chromosome_location (adjacent exons are merged there)
+            transcript._location,
             start_is_incomplete=False,
             end_is_complete=False,
             is_pseudo=False,
@@ -455,7 +458,8 @@ class RRNATblFeature(TblFeature):
             qualifiers["product"] = ["unknown ribosomal RNA"]
 
         super().__init__(
-            transcript.chromosome_location,
+            # must use _location here and not chromosome_location (adjacent exons are merged there)
+            transcript._location,
             start_is_incomplete=False,
             end_is_complete=False,
             is_pseudo=False,
